@@ -118,3 +118,115 @@ Theorem C01_contract_checked fuel s o s' :
     ZERO_UPPERBOUND <= sl /\ (act_of s' k = true -> sl == 0).
 Proof. exact (contract_checked fuel s o s'). Qed.
 Print Assumptions C01_contract_checked.
+
+(* ================= closed in the second round (Vpsc/VpscTree, VpscPopulate, VpscForest, VpscWalks, VpscTrichotomy, VpscReach) *)
+From Adapt Require Import Vpsc.VpscFrame Vpsc.VpscTree Vpsc.VpscPopulate Vpsc.VpscForest Vpsc.VpscWalks Vpsc.VpscTrichotomy Vpsc.VpscReach.
+
+(* forest invariant: the active constraints inside the block of a variable form a spanning tree of that block *)
+Theorem C01_forest_init vs cs : wf_cons vs cs -> forest (init vs cs).
+Proof. exact (init_forest vs cs). Qed.
+Print Assumptions C01_forest_init.
+
+Theorem C01_forest_merge s c :
+  book s -> forest s -> (c < length (scons s))%nat ->
+  blk_of s (cl (con_of s c)) <> blk_of s (cr (con_of s c)) ->
+  forest (fst (merge s c)).
+Proof. exact (merge_forest s c). Qed.
+Print Assumptions C01_forest_merge.
+
+(* Block::split: populateSplitBlock from both ends partitions the block into the two trees left by removing c;
+   this is the "same block" half C01_split_act_inv_partial was missing *)
+Theorem C01_split_preserves s c s' l r :
+  book s -> act_inv s -> forest s -> act_of s c = true ->
+  split s (blk_of s (cl (con_of s c))) c = Ok (s', l, r) ->
+  book s' /\ act_inv s' /\ forest s'.
+Proof. exact (split_preserves s c s' l r). Qed.
+Print Assumptions C01_split_preserves.
+
+(* findMinLMBetween returns a constraint whose removal separates the two ends (so the re-merge joins two blocks) *)
+Theorem C01_split_constraint_separates s b lv rv m s' :
+  book s -> act_inv s -> forest s ->
+  (lv < length (svars s))%nat -> blk_of s lv = b ->
+  find_min_lm_between s b lv rv = Ok (m, s') ->
+  lm_only s s' /\ (forall c, m = Some c -> separates (con_of s) (Vof s b) (Eof s b) c lv rv).
+Proof. exact (find_min_lm_between_spec s b lv rv m s'). Qed.
+Print Assumptions C01_split_constraint_separates.
+
+(* the full invariant (book, act_inv, forest, trichotomy) holds initially and after every op of every history *)
+Theorem C01_inv_init vs cs : wf_cons vs cs -> inv (init vs cs).
+Proof. exact (init_inv vs cs). Qed.
+Print Assumptions C01_inv_init.
+
+Theorem C01_inv_satisfy_step s b s' :
+  inv s -> satisfy_step s = Ok (b, s') -> inv s' /\ (b = false -> inactive_sat s' /\ noeq s' (inactive s')).
+Proof. exact (satisfy_step_inv s b s'). Qed.
+Print Assumptions C01_inv_satisfy_step.
+
+Theorem C01_inv_split_blocks s p : inv s -> split_blocks s = Ok p -> inv (fst p).
+Proof. exact (split_blocks_inv s p). Qed.
+Print Assumptions C01_inv_split_blocks.
+
+Theorem C01_inv_step fuel s o s' : inv s -> op_ok s o -> step fuel s o = Ok s' -> inv s'.
+Proof. exact (step_inv fuel s o s'). Qed.
+Print Assumptions C01_inv_step.
+
+Theorem C01_inv_reachable s : reachable s -> inv s.
+Proof. exact (reachable_inv s). Qed.
+Print Assumptions C01_inv_reachable.
+
+(* whenever the satisfy loop exits (no OutOfFuel), the final scan of satisfy() finds nothing to throw *)
+Theorem C01_no_final_throw fuel s p s2 :
+  reachable s -> split_blocks s = Ok p -> satisfy_loop fuel (fst p) = Ok s2 ->
+  final_scan (cleanup s2) = Ok (cleanup s2).
+Proof. exact (no_final_throw_reach fuel s p s2). Qed.
+Print Assumptions C01_no_final_throw.
+
+(* every state returned by solve()/satisfy() in any op history from a fresh solver: every unflagged constraint holds
+   to the code's tolerance -1e-10 (ZERO_UPPERBOUND), active ones exactly, and every unflagged equality exactly *)
+Theorem C01_sat_on_return_full fuel s o s' :
+  reachable s -> run_result o fuel s s' -> wf_vars (svars s') ->
+  forall k, (k < length (scons s'))%nat -> uns_of s' k = false ->
+    let sl := slackv (svars s') (place_of (final_positions s')) (con_of s' k) in
+    ZERO_UPPERBOUND <= sl /\ (act_of s' k = true -> sl == 0) /\ (ceq (con_of s' k) = true -> sl == 0).
+Proof. exact (sat_on_return_reach fuel s o s'). Qed.
+Print Assumptions C01_sat_on_return_full.
+
+From Adapt Require Import Vpsc.VpscInvB Vpsc.VpscStats Vpsc.VpscNoThrow Vpsc.VpscClosedExamples.
+
+(* C01_no_final_throw, strongest form: from a reachable state satisfy() / solve() / any op never returns the
+   `throw "Unsatisfied constraint"` result (the result is Ok or OutOfFuel; termination is not proved) *)
+Theorem C01_satisfy_never_throws fuel s c : reachable s -> inc_satisfy fuel s = ThrowUnsat c -> False.
+Proof. exact (inc_satisfy_never_throws_reach fuel s c). Qed.
+Print Assumptions C01_satisfy_never_throws.
+
+Theorem C01_step_never_throws fuel s o c : reachable s -> step fuel s o = ThrowUnsat c -> False.
+Proof. exact (step_never_throws fuel s o c). Qed.
+Print Assumptions C01_step_never_throws.
+
+(* block statistics: in every state reachable from a fresh solver over variables with weights, scales > 0, every
+   block ever created is non-empty, has scale > 0, A2 > 0, A2 = sum of wt*(scale/scl)^2 over its variables and
+   posn = (AD - AB)/A2 *)
+Theorem C01_stats_reachable s : reachable_wf s -> all_ok s.
+Proof. exact (reachable_all_ok s). Qed.
+Print Assumptions C01_stats_reachable.
+
+(* ... so no division by zero is executed: the divisors A2 (addVariable, updateWeightedPosition) and the variables'
+   scales (position, dfdv, the statistics) are > 0; over Q this is the "all positions finite" part of the property *)
+Theorem C01_no_division_by_zero s : reachable_wf s ->
+  (forall v, 0 < scl (var_of s v) /\ 0 < wt (var_of s v)) /\
+  (forall b, (b < length (blocks s))%nat -> 0 < A2 (block_of s b) /\ 0 < bscale (block_of s b)) /\
+  (forall b v, (b < length (blocks s))%nat -> 0 < A2 (block_of (add_variable s b v) b)) /\
+  (forall b, (b < length (blocks s))%nat -> 0 < A2 (block_of (update_weighted_position s b) b)).
+Proof. exact (no_division_by_zero s). Qed.
+Print Assumptions C01_no_division_by_zero.
+
+(* C01_sat_on_return_full for EVERY op history from a fresh solver (wf_vars, wf_cons, added constraints in range), no
+   side hypothesis left: every returned Ok state has every unflagged constraint with slack >= -1e-10 (= the code's
+   ZERO_UPPERBOUND, the loop-exit tolerance), every active constraint and every unflagged equality with slack == 0 *)
+Theorem C01_sat_on_return_history fuel s o s' :
+  reachable_wf s -> run_result o fuel s s' ->
+  forall k, (k < length (scons s'))%nat -> uns_of s' k = false ->
+    let sl := slackv (svars s') (place_of (final_positions s')) (con_of s' k) in
+    ZERO_UPPERBOUND <= sl /\ (act_of s' k = true -> sl == 0) /\ (ceq (con_of s' k) = true -> sl == 0).
+Proof. exact (sat_on_return_history fuel s o s'). Qed.
+Print Assumptions C01_sat_on_return_history.
